@@ -135,9 +135,9 @@ def report(manager, fileobj, sev_level, conf_level, template=None):
             if field_name in tag_blacklist:
                 msg_parsed_template_list.append(field_name)
                 continue
-            # Append the fmt_spec part
-            params = [field_name, fmt_spec, conversion]
-            markers = ["", ":", "!"]
+            # Append the conversion and fmt_spec parts ("{name!conv:spec}")
+            params = [field_name, conversion, fmt_spec]
+            markers = ["", "!", ":"]
             msg_parsed_template_list.append(
                 ["{"]
                 + [f"{m + p}" if p else "" for m, p in zip(markers, params)]
